@@ -343,6 +343,22 @@ func (g *envTypeGen) genStruct(depth int, path, words []string) reflect.Type {
 			fs = append(fs, f)
 			continue
 		}
+		if g.empties && r.Chance(10) {
+			// a struct-typed field whose struct has no exported field: no leaf, no flattened value; the fields around
+			// it - and a parent that ENDS with it - must work as if it were not there
+			f.Type = []reflect.Type{reflect.TypeOf(struct{}{}), reflect.TypeOf(struct{ hidden int }{}), reflect.TypeOf(&struct{}{})}[r.Intn(3)]
+			flatName := strings.Join(append(append([]string{}, g.np...), ns.name), ".")
+			if g.flat == nil {
+				g.flat = map[string]bool{}
+			}
+			if g.flat[flatName] {
+				continue
+			}
+			g.flat[flatName] = true
+			f.Tag = reflect.StructTag(strings.Join(tagParts, " "))
+			fs = append(fs, f)
+			continue
+		}
 		if depth > 0 && r.Chance(30) {
 			if g.embed && r.Chance(35) {
 				f.Anonymous = true
